@@ -48,6 +48,7 @@ func baselineFuncs() map[string]bool {
 }
 
 var baselineSigCache, baselineTypeCache map[string][]string
+var baselineResCache map[string]string
 
 func loadBaselineSigs() {
 	if baselineSigCache != nil {
@@ -55,6 +56,7 @@ func loadBaselineSigs() {
 	}
 	baselineSigCache = map[string][]string{}
 	baselineTypeCache = map[string][]string{}
+	baselineResCache = map[string]string{}
 	for _, l := range strings.Split(baselineFuncsTxt, "\n") {
 		f := strings.Split(strings.TrimRight(l, "\r\n"), "\t")
 		if len(f) >= 2 && f[1] != "" {
@@ -62,6 +64,9 @@ func loadBaselineSigs() {
 		}
 		if len(f) >= 3 && f[2] != "" {
 			baselineTypeCache[f[0]] = strings.Split(f[2], ";")
+		}
+		if len(f) >= 4 {
+			baselineResCache[f[0]] = f[3]
 		}
 	}
 }
@@ -131,8 +136,15 @@ func ScanDecls(repo string) (map[string][]string, error) {
 
 // ScanDeclsTyped is ScanDecls plus, per function, the parameter types as written in the source.
 func ScanDeclsTyped(repo string) (map[string][]string, map[string][]string, error) {
+	a, b, _, err := scanDeclsFull(repo)
+	return a, b, err
+}
+
+// scanDeclsFull additionally returns the result types of every function ("" when none).
+func scanDeclsFull(repo string) (map[string][]string, map[string][]string, map[string]string, error) {
 	out := map[string][]string{}
 	typesOut := map[string][]string{}
+	resOut := map[string]string{}
 	fset := token.NewFileSet()
 	err := filepath.WalkDir(repo, func(path string, d os.DirEntry, err error) error {
 		if err != nil {
@@ -160,6 +172,20 @@ func ScanDeclsTyped(repo string) (map[string][]string, map[string][]string, erro
 				continue
 			}
 			var params, ptypes []string
+			results := ""
+			if fd.Type.Results != nil {
+				var rs []string
+				for _, f := range fd.Type.Results.List {
+					n := len(f.Names)
+					if n == 0 {
+						n = 1
+					}
+					for k := 0; k < n; k++ {
+						rs = append(rs, strings.ReplaceAll(types.ExprString(f.Type), " ", ""))
+					}
+				}
+				results = strings.Join(rs, ";")
+			}
 			for _, f := range fd.Type.Params.List {
 				ts := strings.ReplaceAll(types.ExprString(f.Type), " ", "")
 				if len(f.Names) == 0 {
@@ -174,6 +200,7 @@ func ScanDeclsTyped(repo string) (map[string][]string, map[string][]string, erro
 			if fd.Recv == nil || len(fd.Recv.List) == 0 {
 				out[pkgShort+"."+fd.Name.Name] = params
 				typesOut[pkgShort+"."+fd.Name.Name] = ptypes
+				resOut[pkgShort+"."+fd.Name.Name] = results
 				continue
 			}
 			t := fd.Recv.List[0].Type
@@ -205,14 +232,101 @@ func ScanDeclsTyped(repo string) (map[string][]string, map[string][]string, erro
 			if ptr {
 				out["(*"+n+")."+fd.Name.Name] = params
 				typesOut["(*"+n+")."+fd.Name.Name] = ptypes
+				resOut["(*"+n+")."+fd.Name.Name] = results
 			} else {
 				out["("+n+")."+fd.Name.Name] = params
 				typesOut["("+n+")."+fd.Name.Name] = ptypes
+				resOut["("+n+")."+fd.Name.Name] = results
 			}
 		}
 		return nil
 	})
-	return out, typesOut, err
+	return out, typesOut, resOut, err
+}
+
+// ---------------------------------------------------------------------------
+// Renamed unexported functions.
+//
+// An unexported function that is in the baseline but no longer declared, and a
+// declared unexported function that is not in the baseline, with the same
+// package, the same receiver and the same parameter and result types, are taken
+// to be one function that was renamed when the pairing is unique in both
+// directions. The function keeps its baseline name for the analysis (FnName,
+// terms), so rules anchored on it still find it.
+
+var renamedFns = map[string]string{} // current name -> baseline name
+
+// splitFnName returns the prefix up to and including the last '.', and the bare name.
+func splitFnName(n string) (string, string) {
+	i := strings.LastIndex(n, ".")
+	if i < 0 {
+		return "", n
+	}
+	return n[:i+1], n[i+1:]
+}
+
+// DetectRenames fills the rename table for the tree under repo.
+func DetectRenames(repo string) map[string]string {
+	renamedFns = map[string]string{}
+	_, curTypes, curRes, err := scanDeclsFull(repo)
+	if err != nil {
+		return renamedFns
+	}
+	loadBaselineSigs()
+	base := baselineFuncs()
+	sig := func(prefix string, ptypes []string, res string) string {
+		return prefix + "(" + strings.Join(ptypes, ";") + ")" + res
+	}
+	missing := map[string][]string{} // signature -> baseline names no longer declared
+	fresh := map[string][]string{}   // signature -> new names
+	for n := range base {
+		if _, ok := curTypes[n]; ok {
+			continue
+		}
+		pre, bare := splitFnName(n)
+		if bare == "" || ast.IsExported(bare) {
+			continue
+		}
+		res, known := baselineResCache[n]
+		if !known {
+			continue
+		}
+		k := sig(pre, baselineTypeCache[n], res)
+		missing[k] = append(missing[k], n)
+	}
+	for n, pt := range curTypes {
+		if base[n] {
+			continue
+		}
+		pre, bare := splitFnName(n)
+		if bare == "" || ast.IsExported(bare) {
+			continue
+		}
+		k := sig(pre, pt, curRes[n])
+		fresh[k] = append(fresh[k], n)
+	}
+	for k, ms := range missing {
+		if fs := fresh[k]; len(ms) == 1 && len(fs) == 1 {
+			renamedFns[fs[0]] = ms[0]
+		}
+	}
+	return renamedFns
+}
+
+// baselineName maps a current function name (FnName form, possibly of a closure) to its baseline name.
+func baselineName(n string) string {
+	if len(renamedFns) == 0 {
+		return n
+	}
+	if b, ok := renamedFns[n]; ok {
+		return b
+	}
+	if i := strings.Index(n, "$"); i > 0 {
+		if b, ok := renamedFns[n[:i]]; ok {
+			return b + n[i:]
+		}
+	}
+	return n
 }
 
 // Normalize returns an overlay (absolute file name -> content) in which every
@@ -271,7 +385,7 @@ func Normalize(repo string, env []string) (map[string][]byte, []string, error) {
 						continue
 					}
 					name := declName(short, fd, pk.TypesInfo)
-					if name == "" || base[name] || failed[name] {
+					if name == "" || base[name] || failed[name] || renamedFns[name] != "" {
 						continue
 					}
 					obj := pk.TypesInfo.Defs[fd.Name].(*types.Func)
@@ -926,4 +1040,9 @@ func simpleExpr(e ast.Expr) bool {
 		return simpleExpr(x.X)
 	}
 	return false
+}
+
+// ScanDeclsFull is scanDeclsFull for the command line.
+func ScanDeclsFull(repo string) (map[string][]string, map[string][]string, map[string]string, error) {
+	return scanDeclsFull(repo)
 }
